@@ -142,9 +142,10 @@ func (p *connPool) connect() (conn *ClientConn, err error) {
 		return nil, err
 	}
 
+	opened := conn // The error returns below set the result `conn` to nil before the deferred function runs
 	defer func() {
-		if err != nil && conn != nil {
-			_ = conn.Close()
+		if err != nil {
+			_ = opened.Close()
 		}
 	}()
 
